@@ -109,4 +109,34 @@ Proof.
     - exists v1, v2, o1, o2, i1, i2. repeat (split; [assumption|]). exact G. }
   destruct (pw_focal ws) as [| |q]; [apply Hgo|congruence|apply Hgo].
 Qed.
+
+(* the tilt-aware call coincides with the untilted one on wavefronts whose fields carry no tilt *)
+Lemma ang_shift_untilted z dur duc os (f : field S) : ftilt f = [] -> ang_shift z dur duc os f = (0%Qc, 0%Qc).
+Proof. intros H. unfold ang_shift. rewrite H. cbn [fold_left fst snd]. f_equal; unfold Qcdiv; ring. Qed.
+
+Lemma prop_fields_shift_ext (s1 s2 : field S -> Qc * Qc) oe Pro Pco alpha (fs : list (field S)) :
+  (forall f, In f fs -> s1 f = s2 f) ->
+  prop_fields sq s1 oe Pro Pco alpha fs = prop_fields sq s2 oe Pro Pco alpha fs.
+Proof. induction fs as [|f r IH]; intros H; cbn [prop_fields]; [reflexivity|].
+  rewrite (H f) by now left. rewrite IH by (intros; apply H; now right). reflexivity. Qed.
+
+Theorem propagate_dft_shift_ext (s1 s2 : field S -> Qc * Qc) (w : wavefront S) dur duc shape pshape os mask :
+  (forall f, In f (wdata w) -> s1 f = s2 f) ->
+  propagate_dft sq s1 w dur duc shape pshape os mask = propagate_dft sq s2 w dur duc shape pshape os mask.
+Proof. intros H. unfold propagate_dft.
+  destruct (propagate_ptype (wptype w)) as [t|e]; cbn [rbind]; [|reflexivity].
+  destruct (match shape with Some s => s | None => wshape w end) as [Sr Sc].
+  destruct (match pshape with Some p => p | None => (Sr, Sc) end) as [Pr Pc].
+  destruct (out_extent (Sr * os) (Sc * os) mask) as [oe|e]; cbn [rbind]; [|reflexivity].
+  now rewrite (prop_fields_shift_ext s1 s2 _ _ _ _ _ H). Qed.
+
+Theorem chain_propagate_tilted_untilted (ps : list (plane S)) (w w1 : pwf S) dur duc shape pshape os :
+  chain_multiply ps w = Ok w1 -> (forall f, In f (pw_data w1) -> ftilt f = []) ->
+  chain_propagate_tilted sq ps w dur duc shape pshape os = chain_propagate sq ps w dur duc shape pshape os.
+Proof.
+  intros E H. unfold chain_propagate_tilted, chain_propagate. rewrite E. cbn [rbind].
+  unfold to_wavefront. destruct (pw_shape w1) as [sh|]; [|reflexivity].
+  destruct (pw_focal w1); cbn [rbind]; try reflexivity;
+    apply propagate_dft_shift_ext; cbn [wdata wfocal]; intros f Hf; now rewrite ang_shift_untilted by (now apply H).
+Qed.
 End SegmentP.
